@@ -103,7 +103,20 @@ def create_load_table(
                     create_table_file = True
                     break
 
-    if (create_table_file or force_create) and not force_load:
+    table = None
+    if not (create_table_file or force_create) and not force_load:
+        # Try to load the cached table. An incomplete table file (e.g. left
+        # by an interrupted write) is treated as if there is no cache.
+        if debug:
+            h_print(f"Loading LR table from '{table_file_name}'")
+        try:
+            table = load_table(table_file_name, grammar)
+        except ValueError:
+            table = None
+
+    if table is not None:
+        pass
+    elif not force_load:
         table = create_table(
             grammar,
             itemset_type,
